@@ -667,9 +667,20 @@ impl<S> Env<S> {
     /// The function returns `Break(Divert::Exit(None))` if the [`errexit`
     /// option is applicable](Self::errexit_is_applicable) and the current
     /// `self.exit_status` is non-zero. Otherwise, it returns `Continue(())`.
+    ///
+    /// While a trap action is being executed (that is, the stack contains a
+    /// [`Trap`](Frame::Trap) frame), the returned divert is
+    /// `Break(Divert::Exit(Some(self.exit_status)))` instead. The exit status
+    /// is specified explicitly because `self.exit_status` is restored to the
+    /// value before the trap action when the action finishes, and the shell
+    /// must still exit with the exit status of the failed command.
     pub fn apply_errexit(&self) -> ControlFlow<Divert> {
         if !self.exit_status.is_successful() && self.errexit_is_applicable() {
-            Break(Divert::Exit(None))
+            let in_trap = self
+                .stack
+                .iter()
+                .any(|frame| matches!(frame, Frame::Trap(_)));
+            Break(Divert::Exit(in_trap.then_some(self.exit_status)))
         } else {
             Continue(())
         }
